@@ -229,6 +229,15 @@ RobSubs(ep, full, par, upto) ==
   \cup UNION {{[op |-> "rob.decode", a |-> [ep |-> ep, octets |-> Take([full EXCEPT ![j] = b], k), full |-> <<>>, par |-> par]] :
                  b \in {0, 255}, k \in {Len(full) - 1, Len(full) - 2, j + 1}} : j \in 1..MinOf(8, Len(full))}
 RobBoth(ep, full, par, upto) == RobCuts(ep, full, par) \cup RobSubs(ep, full, par, upto)
+\* consistent shortening of a PDU: the data field length is set to k and the buffer ends there (CRC recomputed), so that
+\* the directive's parameter parser sees every possible declared length
+ShrinkPdu(w, hl, k, crc) ==
+  LET raw == <<w[1]>> \o U16(k) \o SubSeq(w, 4, hl) \o SubSeq(w, hl + 1, hl + k - 2 * crc)
+  IN IF crc = 1 THEN WithCrc(raw) ELSE raw
+RobShrink(ep, k0, c, p, par) ==
+  LET w == PduEnc(k0, c, p)  hl == CfgHdrLen(c) IN
+  {[op |-> "rob.decode", a |-> [ep |-> ep, octets |-> ShrinkPdu(w, hl, k, c.crc) \o s, full |-> <<>>, par |-> par]] :
+     k \in (2 * c.crc)..(Len(w) - hl), s \in {<<>>, <<0, 0, 0, 0>>}}
 NoPar == [none |-> 0]
 RobTmPar(ts) == [tslen |-> ts, stepw |-> 1, errw |-> 1]
 Srv1Raw(sub, st, fl) == TmEnc(TmOf(Srv1TmParams([Srv1Base EXCEPT !.sub = sub, !.step = st, !.fail = fl, !.stamp = Srv1Stamp], ReqSample)))
@@ -266,8 +275,10 @@ RobGridPart(i) ==
                                     \cup RobCuts("fac.dtype", PduEnc(k, c, p), NoPar) :
                                     p \in ParamFew(k), c \in {CfgOf(0, 0, 1, 2, 0, 0), CfgOf(1, 1, 2, 1, 0, 0)}} :
                              k \in {KindOrder[2 * (i - 7) + 1], KindOrder[2 * (i - 7) + 2]}}
-    \* a PDU of one kind through the decoder of every other kind
-    [] i = 11 -> UNION {{[op |-> "rob.decode", a |-> [ep |-> "pdu", octets |-> PduEnc(KindOrder[k], CfgOf(1, 0, 1, 2, 0, 0), p), full |-> <<>>,
+    \* a PDU of one kind through the decoder of every other kind; consistent shortening of every kind
+    [] i = 11 -> UNION {UNION {RobShrink("pdu", KindOrder[k], c, p, [want |-> KindOrder[k]]) \cup RobShrink("fac", KindOrder[k], c, p, [want |-> "any"]) :
+                                 c \in {CfgOf(0, 0, 1, 1, 0, 0), CfgOf(1, 1, 2, 1, 0, 0), CfgOf(0, 1, 1, 2, 0, 0)}, p \in ParamFew(KindOrder[k])} : k \in 1..8}
+                 \cup UNION {{[op |-> "rob.decode", a |-> [ep |-> "pdu", octets |-> PduEnc(KindOrder[k], CfgOf(1, 0, 1, 2, 0, 0), p), full |-> <<>>,
                                                          par |-> [want |-> KindOrder[k2]]]] : k2 \in 1..8, p \in ParamFew(KindOrder[k])} : k \in 1..8}
                  \cup UNION {UNION {RobSubs("pdu", PduEnc(k, CfgOf(0, 0, 1, 1, 0, 0), p), [want |-> k], 40) :
                                       p \in {q \in ParamGrid(k) : PduOk(k, CfgOf(0, 0, 1, 1, 0, 0), q) /\ Len(PduEnc(k, CfgOf(0, 0, 1, 1, 0, 0), q)) \in 12..40
